@@ -99,6 +99,35 @@ class World:
         self.ever_deleted: dict[str, bytes] = {}
         self.last_info: dict = {}
 
+    @classmethod
+    def attach(cls, root: str, cfg: dict, model: dict | None = None, aux: str | None = None) -> 'World':
+        """A world over an already initialised container folder (crash / fault / schedule labs)."""
+        self = cls.__new__(cls)
+        self.root = root
+        self.cfg = dict(cfg)
+        self.aux = aux or (root.rstrip('/') + '.aux')
+        os.makedirs(self.aux, exist_ok=True)
+        self.handles = {}
+        self.hash_type = cfg['hash_type']
+        self.model = dict(model or {})
+        self.problems = []
+        self.counters = Counter()
+        self._nfile = len(os.listdir(self.aux)) + 100
+        self._nsrc = len(os.listdir(self.aux)) + 100
+        self.ever_deleted = {}
+        self.last_info = {}
+        return self
+
+    def op_contents(self, op: dict) -> dict[str, bytes]:
+        """key -> bytes of every content an operation may add to this container."""
+        specs = []
+        if 'c' in op:
+            specs.append(op['c'])
+        specs += op.get('cs', []) if op['op'] != 'delete' else []
+        if op['op'] == 'import':
+            specs += op.get('src_cs', [])
+        return {self.key(s): gen.content(s) for s in specs}
+
     # -- basics ---------------------------------------------------------------------------
     def H(self, data: bytes, hash_type: str | None = None) -> str:  # noqa: N802
         return hashlib.new(hash_type or self.hash_type, data).hexdigest()
@@ -247,7 +276,7 @@ class World:
             req = keys + absent
             want = {k for k in req if k in self.model}
             got = cont.delete_objects(req)
-            if sorted(got) != sorted(want):
+            if sorted(got) != sorted(want) and not getattr(self, 'lenient', False):
                 self.problem('delete-return', f'delete_objects({req}) returned {sorted(got)} expected {sorted(want)}')
             for k in want:
                 self.ever_deleted[k] = self.model.pop(k)
